@@ -3,6 +3,7 @@ package props
 import (
 	"context"
 	"fmt"
+	"os"
 	"reflect"
 	"strings"
 	"sync"
@@ -403,6 +404,9 @@ func RunC05(t *kernel.Tape, o Opts) *Result {
 	// that runs afterwards on the same client and resolver is ("what other
 	// resolutions were run earlier" includes resolutions that did not finish).
 	faulty := t.Bool(1, 3)
+	if os.Getenv("VERIF_NO_ABORT_FAULTS") != "" {
+		faulty = false // sensitivity experiments only: what would be seen without this fault family
+	}
 	var epilogue []*c05Op
 	var epilogueTask []int
 	if faulty {
